@@ -144,6 +144,37 @@ TIMEOUTS = []
 LOG_RE = re.compile(rb"^\[\d\d:\d\d:\d\d\] (INFO|DEBUG|TRACE|WARN|ERROR) - (\w+): (.*)$")
 
 
+class _Done:
+    def __init__(self, rc, out, err):
+        self.returncode, self.stdout, self.stderr = rc, out, err
+
+
+def _run_watch(cmd, env, preexec, timeout, dump):
+    """runs the binary; if it is still alive after `stall` seconds its thread stacks are dumped with gdb (diagnostics of a
+    rare stall seen during development), it is killed and the run is repeated once"""
+    import time as _t
+    for attempt in (1, 2):
+        pr = subprocess.Popen(cmd, stdout=subprocess.PIPE, stderr=subprocess.PIPE, env=env, preexec_fn=preexec)
+        try:
+            out, err = pr.communicate(timeout=min(timeout, 25) if attempt == 1 else timeout)
+            return _Done(pr.returncode, out, err)
+        except subprocess.TimeoutExpired:
+            note = os.path.join(C.CACHE, "stall-%d-%d.txt" % (os.getpid(), int(_t.time())))
+            try:
+                g = subprocess.run(["gdb", "-p", str(pr.pid), "-batch", "-ex", "thread apply all bt 25"], stdout=subprocess.PIPE, stderr=subprocess.STDOUT, timeout=60)
+                with open(note, "wb") as f:
+                    f.write((" ".join(cmd) + "\n").encode() + g.stdout)
+            except Exception:
+                pass
+            pr.kill()
+            pr.communicate()
+            TIMEOUTS.append(" ".join(cmd) + " -> " + note)
+            for n in os.listdir(dump):
+                os.unlink(os.path.join(dump, n))
+            if attempt == 2:
+                raise
+
+
 class Result:
     def __init__(self):
         self.exit = None
@@ -319,14 +350,7 @@ class Scenario:
             e.update(env)
         r = Result()
         try:
-            try:
-                p = subprocess.run(cmd, stdout=subprocess.PIPE, stderr=subprocess.PIPE, env=e, preexec_fn=preexec, timeout=timeout)
-            except subprocess.TimeoutExpired:
-                # one retry: a stuck run is reported only if it is stuck twice (noted for the evidence)
-                TIMEOUTS.append(" ".join(cmd))
-                for n in os.listdir(dump):
-                    os.unlink(os.path.join(dump, n))
-                p = subprocess.run(cmd, stdout=subprocess.PIPE, stderr=subprocess.PIPE, env=e, preexec_fn=preexec, timeout=timeout)
+            p = _run_watch(cmd, e, preexec, timeout, dump)
             r.exit, r.stdout, r.stderr = p.returncode, p.stdout, p.stderr
             for n in sorted(os.listdir(dump)):
                 with open(os.path.join(dump, n), "rb") as fh:
